@@ -116,7 +116,7 @@ class BBNohA(Adapter):
 
     def window(self, t):
         u0 = abs(self.cfg.get("ic", [1, -1, 0])[1])
-        return 1e-3 * u0 * t, 1e3 * u0 * t
+        return 1e-3 * u0 * t, 1e4 * u0 * t
 
 
 # ------------------------------------------------------------------------------ Riemann (ideal gas: sharp)
@@ -232,7 +232,8 @@ class SedovA(Adapter):
     no smearing), and only NODE nodes lie inside the shock so a call costs milliseconds."""
     NODE = 8
     arity = 2
-    scan = 33
+    scan = 257
+    geometric = True
     max_jumps = 1
     order = 4
     rel_steps = (1e-2, 3e-3)
@@ -246,20 +247,21 @@ class SedovA(Adapter):
         return out
 
     def window(self, t):
-        """Walk inwards from r = 100 (cold gas) by halving until the pressure is non-zero: the shock lies in the last
-        step.  Keeps the scan away from the core r << r_shock, whose values the documentation declares untrustworthy
-        (and from a vacuum hole)."""
-        key = ("w", t)
-        if key not in self.__dict__.setdefault("_w", {}):
-            r = 100.0
+        """Walk inwards from r = 100 (cold gas, rho > 0, p = 0) in steps of 25 % until the pressure is non-zero or the
+        density is exactly zero (vacuum hole of a thin-shell solution): the shock lies in the last step.  Keeps the scan
+        away from the core r << r_shock, whose values the documentation declares untrustworthy."""
+        if t not in self.__dict__.setdefault("_w", {}):
+            r, prev = 100.0, None
             win = None
-            for _ in range(24):
-                if self.Fat(np.array([r]), t)[2, 0] > 0:
-                    win = (r / 1.02, 2.04 * r)
+            for _ in range(80):
+                S = self.Fat(np.array([r]), t)[:, 0]
+                if S[2] > 0 or S[0] == 0:
+                    win = (r / 1.02, (prev or 1.25 * r) * 1.02)
                     break
-                r *= 0.5
-            self._w[key] = win or (1e-5, 100.0)
-        return self._w[key]
+                prev = r
+                r /= 1.25
+            self._w[t] = win or (1e-6, 100.0)
+        return self._w[t]
 
 
 # ------------------------------------------------------------------------------ Riemann, general EOS (class C)
